@@ -242,7 +242,7 @@ func toString(env *env, i any) (string, error) {
 			if s != "" && i > 0 {
 				s += " "
 			}
-			s = strconv.FormatFloat(i, 'f', -1, 32) + "i"
+			s += strconv.FormatFloat(i, 'f', -1, 32) + "i"
 		}
 		return s, nil
 	case reflect.Complex128:
@@ -258,7 +258,7 @@ func toString(env *env, i any) (string, error) {
 			if s != "" && i > 0 {
 				s += "+"
 			}
-			s = strconv.FormatFloat(i, 'f', -1, 64) + "i"
+			s += strconv.FormatFloat(i, 'f', -1, 64) + "i"
 		}
 		return s, nil
 	default:
